@@ -100,6 +100,8 @@ SENSITIVITY = {
     "r17b": ("seeded/r17b/patch.diff", "C17", ["result-mismatch"], "C: hot-segment table under an RwLock, compacted by a rare writer between a reader's two lock acquisitions"),
     "r17c": ("seeded/r17c/patch.diff", "C18", ["callback-invariant", "error-swallowed", "wrong-target", "query-element-not-delivered"], "A: batch elements a few ulps outside the range are snapped to the axis end before the strategy sees them"),
     "r17d": ("seeded/r17d/patch.diff", "C18", ["callback-invariant"], "A: Interp2D keeps a packed copy of widely strided axes; index_point reads y from the x copy"),
+    "r18a": ("seeded/r18a/patch.diff", "C17", ["result-mismatch", "entry-point-mismatch"], "A: huge-axis scenario - index hint with a closed-interval test, engaged only for axes of >= 1024 knots"),
+    "r18b": ("seeded/r18b/patch.diff", "C18", ["build-invariant", "build-invoked-on-invalid-input"], "A: huge-axis builder cases - block-wise monotonicity fast path (4096) skipping the seam pairs"),
     "M16": ("mutants/M16.diff", "C17", ["answers-differ-between-processes", "process-history-dependence"], "A: evaluation order picked once per process from the hasher's random seed"),
 }
 # seeded/r7d is kept but not listed: its author reads C18 as forbidding one-point axes for strategies
